@@ -342,7 +342,8 @@ RunPoll(s) ==
 \* L0 characters whose fail_at-th growth step cannot allocate
 ENOMEM == -12
 IsStr(sk) == Len(sk) = 4
-SinkArg(sk) == IF IsStr(sk) THEN <<"str", sk[4], sk[1]>> ELSE <<"rec", sk[1], sk[2]>>
+IsDiscard(sk) == Len(sk) = 3      \* <<0, 0, "discard">> / <<0, 0, "null">>: the library's own discarding sinks (nothing to observe but the result)
+SinkArg(sk) == IF IsStr(sk) THEN <<"str", sk[4], sk[1]>> ELSE IF IsDiscard(sk) THEN <<sk[3]>> ELSE <<"rec", sk[1], sk[2]>>
 SinkArgs(sinks) == <<SinkArg(sinks[1]), SinkArg(sinks[2])>>
 SinkRet(s, k) ==   \* the value sink k returns for the call it is about to receive
   LET calls == IF k = 1 THEN s.fr.x.c1 ELSE s.fr.x.c2
@@ -448,6 +449,7 @@ RetRec(s) ==
                nfd |-> NFd(s), nalloc |-> NAlloc(s), st |-> ChildStates(s)]
   IN CASE f.fn = "poll" /\ f.r = 0 -> base @@ [rev |-> [any |-> SetToSeq(f.x)]]
        [] f.fn = "read" /\ f.r > 0 -> base @@ [r |-> f.r, runs |-> f.x, bad |-> 0]
+       [] f.fn \in {"drain", "run", "run0"} /\ DOMAIN f.x # {} /\ (IsDiscard(f.a[1]) \/ IsDiscard(f.a[2])) -> base @@ [r |-> f.r]
        [] f.fn \in {"drain", "run"} /\ DOMAIN f.x # {} ->
             base @@ [r |-> f.r, dsum |-> DrainSummary(f), bad |-> 0]
                  @@ (IF IsStr(f.a[1]) THEN [str1 |-> <<f.a[1][4] + f.x.s1, f.a[1][4], 1>>] ELSE <<>>)
@@ -611,6 +613,20 @@ RunCall(h, o, sinks) ==
           /\ Finish(Run(StartEffect([Bundle EXCEPT !.fr = [Frame("run", h, "init", sinks) EXCEPT
                                                               !.x = NoAcc, !.then = "drain", !.acts = o.stop]], h, o)),
                     Append(hist, CallRec("run", h, args)))
+
+\* reproc_run(argv, options): everything goes to the parent's streams unless discard / file / path is asked for; output is not
+\* collected; otherwise as reproc_run_ex.  (The model's options have no file/path shorthand, so: parent unless o.rout = R_DISCARD.)
+RunSimple(h, o) ==
+  LET o2 == IF o.rout = R_DISCARD THEN [o EXCEPT !.rin = R_DISCARD, !.rerr = R_DISCARD] ELSE [o EXCEPT !.rin = R_PARENT, !.rout = R_PARENT, !.rerr = R_PARENT]
+      sinks == <<<<0, 0, "null">>, <<0, 0, "null">>>>
+      args == [StartArgs(o) EXCEPT !.o = [@ EXCEPT !.rin = 0, !.rout = 0, !.rerr = 0] @@ [discard |-> IF o.rout = R_DISCARD THEN 1 ELSE 0]]
+  IN
+  /\ h # 0 /\ life[h] = "none" /\ ch[h].alive = "none"
+  /\ IF StartError(o2) # 0 THEN Immediate("run0", h, args, StartError(o2))
+     ELSE /\ Idle /\ ncalls' = ncalls + 1
+          /\ Finish(Run(StartEffect([Bundle EXCEPT !.fr = [Frame("run", h, "init", sinks) EXCEPT
+                                                              !.x = NoAcc, !.then = "drain", !.acts = o.stop]], h, o2)),
+                    Append(hist, CallRec("run0", h, args)))
 
 Resume ==
   /\ Wake
